@@ -137,6 +137,10 @@ func validateValue(option *Option, value interface{}) (*valueCache, *ValidationE
 				}
 			}
 		}
+		if v == nil {
+			// Keep an empty array distinguishable from "not set" when it is saved as JSON.
+			v = []string{}
+		}
 		validated = &valueCache{stringArrayVal: v}
 	case int, int8, int16, int32, int64, uint, uint8, uint16, uint32, float32, float64:
 		// uint64 is omitted, as it does not fit in a int64
